@@ -434,11 +434,19 @@ def timed_model_family(ck, tier, seed, modelq):
                 lo = len(vres0.init_avail) + sum(len(x) for x in vres0.dev_outputs[:-1])
                 inner = list(range(lo + 1, total))
                 v.pauses = sorted(rng.sample(inner, min(len(inner), rng.randint(1, 4)))) if inner and vi > 1 else None
+            clock = None
+            if vi and rng.random() < 0.5:
+                # the duration runs out after a few iterations (the channel module's clock is replaced for this one call): the call
+                # returns what it has read so far, the rest stays unread -- model: `clock = some k`
+                clock = rng.choice([0, 1, 2, 3, 5, 8])
+                v.ops = [*v.ops[:-1], (*v.ops[-1][:4], clock)]
             vres = run_real(v)
             if vres.error or vres.stalled:
                 continue          # a pause that fell outside the timed loop (a transport timeout there is an error by design)
             req = model_request(v, vres)
-            ck.case(("timed-model", bi, vi, str(outs)), nontrivial=True,
+            if clock is not None:
+                ck.extra["timed_model_cases_with_clock"] = ck.extra.get("timed_model_cases_with_clock", 0) + 1
+            ck.case(("timed-model", bi, vi, str(outs), clock), nontrivial=True,
                     tags=("timed-model", "outs=none" if not outs else ("outs=seen" if seen and seen.lower() in " ".join(outs).lower() else "outs=never"),
                           "pauses" if v.pauses else "no-pauses"))
             if req is not None:
